@@ -37,7 +37,36 @@ def rules(fx, rep):
         import inline as INL
         return p.startswith(FE + '::') or INL.is_private_helper(fx, p)
     import stdmodel
-    I = exp.Interp(fx, 'mul', inline=inline, conj_as=q**6, frob_q=q, extra_transfer=stdmodel.result_transfer)
+    def tr12(I_, fr, t, c, pth):
+        # `v.c1.is_zero()` on an Fq12 value v = f^k says v lies in Fq6, i.e. conj(v) = v: the relation f^(k q^6) = f^k;
+        # `v.c0.is_zero()` says conj(v) = -v, of which the (weaker) consequence f^(2k q^6) = f^(2k) is kept
+        if c.get('name') == 'is_zero' and c.get('trait') == 'ff::Field' and len(t['args']) == 1 and (c.get('self_ty') or '').endswith('Fq6'):
+            pl = fr.ref_place_of(t['args'][0])
+            if isinstance(pl, dict):
+                root, proj = fr.root_of(pl)
+                proj = [e for e in proj if e[0] != 'deref']
+                base = fr.store.get(root)
+                if isinstance(base, exp.Lin) and len(proj) == 1 and proj[0][0] == 'f' and proj[0][1] in (0, 1) and base.atoms() <= {'f'}:
+                    k = 1 if proj[0][1] == 1 else 2
+                    fr.storev(t['dest'], ('bool', ('eq', base.scale(k * q**6), base.scale(k), t['span'])))
+                    return True
+        if c.get('name') in ('eq', 'ne') and c.get('trait') == 'std::cmp::PartialEq' and len(t['args']) == 2:
+            # `v.c0 == 1` on a path that has already established v.c1 = 0 (v in Fq6) says v = 1
+            for ia, ib in ((0, 1), (1, 0)):
+                pl = fr.ref_place_of(t['args'][ia])
+                other = fr.deref_operand(t['args'][ib])
+                if isinstance(pl, dict) and isinstance(other, exp.Lin) and not other.t:
+                    root, proj = fr.root_of(pl)
+                    proj = [e for e in proj if e[0] != 'deref']
+                    base = fr.store.get(root)
+                    if isinstance(base, exp.Lin) and base.atoms() <= {'f'} and len(proj) == 1 and proj[0][0] == 'f' and proj[0][1] == 0:
+                        in_fq6 = ('eq', base.scale(q**6), base, None)
+                        if pth.decided(in_fq6[:3]) is True or any(isinstance(l[0], tuple) and l[0][:3] == in_fq6[:3] and l[1] != 0 for l in pth.labels):
+                            key = ('eq', base, exp.Lin(), t['span'])
+                            fr.storev(t['dest'], ('bool', key if c['name'] == 'eq' else ('not', key)))
+                            return True
+        return stdmodel.result_transfer(I_, fr, t, c, pth)
+    I = exp.Interp(fx, 'mul', inline=inline, conj_as=q**6, frob_q=q, extra_transfer=tr12)
     I.fork_inlined = True
     try:
         res = I.run(FE, [('byref', exp.Lin.atom('f'))])
